@@ -673,3 +673,52 @@ pub fn replay_devices(a: &Args, out: &mut Out) {
         m.end(out);
     }
 }
+
+
+// ---------------------------------------------------------------------------
+// C13 RP: behaviours enumerated by TLC (spec/MC_RunRP.tla) replayed on the real simulator
+const RP_RUN_PROG: &str = "
+.orig x3000
+      ADD R1, R1, #2
+LOOP  JSR F
+      ADD R1, R1, #-1
+      BRp LOOP
+      HALT
+F     ADD R6, R6, #-1
+      STR R7, R6, #0
+      JSR G
+      LDR R7, R6, #0
+      ADD R6, R6, #1
+      RET
+G     ADD R2, R2, #1
+      RET
+.end
+";
+/// `lc3v replay run hist=<file>`: each line is [b, c1, c2, ...]: breakpoint set b (1 none, 2 PC x300B,
+/// 3 R2 = 1), then calls by index (1-4 run_with_limit 0/1/2/5, 5 step_over, 6 step_out,
+/// 7 run_while(pc != x300B), 8 run) - the lists of MC_RunRP.
+pub fn replay_run(a: &Args, out: &mut Out) {
+    let hist = std::fs::read_to_string(a.get_str("hist", "")).expect("hist file");
+    set_pair_tag("none");
+    crate::machine::LIGHT_HEADERS.with(|l| l.set(true));
+    let prog = assemble_src(RP_RUN_PROG);
+    let mut run = 0u64;
+    for line in hist.lines() {
+        if line.trim().is_empty() { continue; }
+        let h: Vec<usize> = serde_json::from_str(line).expect("history");
+        run += 1;
+        let mut m = M::new(run, known(0, false, false), out);
+        m.load(out, &prog);
+        for r in 0..8u8 { m.set_reg(out, r, word(if r == 6 { 0xFD00 } else { 0 }, 0xFFFF)); }
+        m.set_psr(out, 0x8002);
+        m.set_pc(out, 0x3000);
+        m.add_intfn(out);
+        match h[0] { 2 => m.add_breakpoint_pc(out, 0x300B), 3 => m.add_breakpoint_cmp(out, "reg", 2, "eq", 1), _ => {} }
+        for &c in &h[1..] {
+            let (kind, arg): (&str, u64) = match c { 1 => ("limit", 0), 2 => ("limit", 1), 3 => ("limit", 2), 4 => ("limit", 5), 5 => ("over", 0), 6 => ("out", 0), 7 => ("pcne", 0x300B), _ => ("run", 0) };
+            if m.run_call(out, kind, arg, &[], 100_000) == "panic" { break; }
+        }
+        m.halted(out);
+        m.end(out);
+    }
+}
